@@ -140,6 +140,16 @@ def unlockEv (h : Heap) (i : Nat) : Heap × Out :=
   | (h2, true) => (h2, .ok)
   | (h2, false) => ((lockEv h2 i).1, .errLock)
 
+/-- `unlock_()` of a `TensorDictParams(lock=True)`: mirrors nn/params.py `_propagate_unlock` (`if not self._lock_content: … ; return []`:
+the wrapper's own flag only, the content stays locked) inside base.py `unlock_` (check, on failure lock again and re-raise) -/
+def unlockShallowEv (h : Heap) (i : Nat) : Heap × Out :=
+  if (h.node i).lazy then (h, .errOther)
+  else
+    let h1 := h.upd i (fun x => { x with flag := some false })
+    match checkUnlock h1 i with
+    | (h2, true) => (h2, .ok)
+    | (h2, false) => ((lockEv h2 i).1, .errLock)
+
 /-- post-order list of the tensor-collection descendants (the order `share_memory_` visits them) -/
 def postOrderF : Nat → Heap → Nat → List Nat
   | 0, _, _ => []
@@ -310,6 +320,8 @@ inductive Ev where
   | withLock (i : Nat)
   | withUnlock (i : Nat)
   | exitCtx
+  /-- `i.unlock_()` where `i` is a `TensorDictParams(lock=True)`: the content stays locked -/
+  | unlockShallow (i : Nat)
   deriving Repr
 
 structure State where
@@ -323,7 +335,7 @@ def held (h : Heap) (i : Nat) : Bool :=
 
 /-- events address live objects only (the harness cannot call a method on a collected object) -/
 def Ev.target : Ev → Option Nat
-  | .lock i | .unlock i | .viaShare i | .viaMemmap i | .gcDrop i | .mut i _ | .mutPath i _ _ | .withLock i | .withUnlock i => some i
+  | .lock i | .unlock i | .viaShare i | .viaMemmap i | .gcDrop i | .mut i _ | .mutPath i _ _ | .withLock i | .withUnlock i | .unlockShallow i => some i
   | _ => none
 
 def stepLive (s : State) : Ev → State × Out
@@ -373,6 +385,7 @@ def stepLive (s : State) : Ev → State × Out
     | (i, some false) :: rest =>
       if live s.heap i && i < s.heap.size then let r := lockEv s.heap i; ({ s with heap := r.1, ctx := rest }, r.2)
       else ({ s with ctx := rest }, .errOther)
+  | .unlockShallow i => let r := unlockShallowEv s.heap i; ({ s with heap := r.1 }, r.2)
 
 def step (s : State) (e : Ev) : State × Out :=
   match e.target with
